@@ -77,6 +77,11 @@ type vkSpace struct {
 // alias records, nothing asks for them).
 func vkNoAlias() bool { return os.Getenv("VERIF_C08_NOALIAS") != "" }
 
+// vkNSAddr (on by default; VERIF_C08_NSADDR=0 leaves it out) adds the space "nsaddr": the stable sibling delegation v.p. whose only name-server host
+// lives under the leased zone. NOT part of the default run: it alarms on the unchanged tree (the resolver's NS-address
+// side cache has no lease), see mutants/C08/RESULTS.md.
+func vkNSAddr() bool { return os.Getenv("VERIF_C08_NSADDR") != "0" }
+
 func vkSpaces(thorough, dnssec bool) []vkSpace {
 	q := func(i int, cd bool) vkEv { e := vkAlphabetQs[i]; e.CD = cd; return e }
 	a := func(i int, cd bool) vkEv { e := vkAliasQs[i]; e.CD = cd; return e }
@@ -121,6 +126,19 @@ func vkSpaces(thorough, dnssec bool) []vkSpace {
 			{"aliascd", []vkEv{a(1, false), a(1, true), adv(3), adv(10), rp}, da[2]},
 			{"fullalias", vkEvents(thorough, dnssec, true), da[3]},
 		}
+	}
+	if vkNSAddr() {
+		// which SERVER a fresh resolution of a v.p. name contacts, across the end of c.p.'s lease and the parent's change:
+		// www.v.p. learns the delegation and the address of nsv.c.p., w2.v.p. is the name the answer cache cannot serve,
+		// www.c.p. learns / refreshes c.p.'s delegation on its own
+		dn := 6
+		switch {
+		case thorough:
+			dn = 12
+		case dnssec:
+			dn = 5
+		}
+		alias = append(alias, vkSpace{"nsaddr", []vkEv{vkNSAddrQs[0], vkNSAddrQs[1], q(0, false), adv(3), adv(10), wd, rp}, dn})
 	}
 	return append([]vkSpace{
 		{"hot", []vkEv{q(0, false), adv(1), adv(3), adv(5), wd, rp}, d[0]},                  // one name kept hot
@@ -210,6 +228,19 @@ func vkViolKey(sc vkScenario, class string) string {
 	}
 	if sc.Cfg.DNSSEC {
 		k += "|dnssec"
+	}
+	if strings.HasPrefix(class, "stale-ns-address-used") {
+		// how the parent changed c.p. (the first change of the history counts)
+		for _, ev := range sc.Hist {
+			if ev.K == "withdraw" {
+				k += "|phase=withdrawn"
+				break
+			}
+			if ev.K == "repoint" {
+				k += "|phase=repointed"
+				break
+			}
+		}
 	}
 	return k
 }
@@ -375,6 +406,7 @@ func vkExplore(t *testing.T, unit string, dnssec bool) {
 		seen     map[string]bool
 		frontier [][]vkEv
 		dead     bool
+		keys     map[string]bool // nsaddr: violation keys already reported by this search
 		done     bool
 		depth    int
 		cost     time.Duration
@@ -430,9 +462,21 @@ func vkExplore(t *testing.T, unit string, dnssec bool) {
 				c.Add("traces", 1)
 				c.Add("upstream_exchanges", int64(r.upstream))
 				if r.step.Viol != "" {
+					vk := vkViolKey(sc, r.step.Class)
+					if b.keys[vk] {
+						continue
+					}
 					if w.report(c, sc, r) {
 						b.dead = true // shortest counterexample of this search found; what lies beyond is tainted
-						break nodes
+						if b.sp.Name != "nsaddr" {
+							break nodes
+						}
+						// nsaddr: the level is finished so that every distinct key of this depth is reported (the parent's
+						// two kinds of change have different expected outcomes: withdrawn -> no server, re-pointed -> v-new)
+						if b.keys == nil {
+							b.keys = map[string]bool{}
+						}
+						b.keys[vk] = true
 					}
 					continue
 				}
